@@ -790,6 +790,68 @@ def own_impl_events(tier, rnd):
         events.append({"ev": "ownimpl", "I": I, "item_present": present, "item_equal": bool(present and rin["items"] and items[0]["hash"] == rin["items"][0]["hash"]),
                        "nimpl": sum(1 for x in items[1:] if x["kind"] == "impl"), "nerr": sum(1 for x in items[1:] if x["kind"] == "compile_error")})
         meta.append(reqs[2 * k + 1])
+    pe, pm = impl_pipe_events(rnd)
+    return events + pe, meta + pm
+
+
+def impl_forms_of(items):
+    out = []
+    for x in items:
+        if x["kind"] != "impl":
+            continue
+        t = (x.get("trait") or "").split("::")[-1]
+        ta = (x.get("trait_args") or [""])
+        r = "r" if (ta and ta[0].lstrip().startswith("&")) else "v"
+        if t.endswith("Assign"):
+            out.append(["assign", "m", r])
+        else:
+            out.append(["bin", "r" if (x.get("self_ty") or "").lstrip().startswith("&") else "v", r])
+    return out
+
+
+def impl_pipe_events(rnd):
+    """every terminal state of the MC_ExpandImpl machine, replayed into the real expander (all ten operators in turn)"""
+    st, outp = dx.tlc_run("MC_ExpandImpl", "MC_ExpandImpl.cfg", "mc_expand_impl", workers=2)
+    if not st["ok"]:
+        raise dx.ToolError("MC_ExpandImpl does not hold: %s (%s)" % (st.get("violated"), outp))
+    vecs = dx.parse_prints(open(outp).read(), "IMPLPIPE")
+    if not vecs:
+        raise dx.ToolError("MC_ExpandImpl printed no IMPLPIPE vector")
+    ops = bf.BINOPS
+    cases = []
+    for n, v in enumerate(vecs):
+        I = dict(v["I"])
+        I["args"] = list(I["args"])
+        for op in (ops[n % len(ops)], ops[(n + 3) % len(ops)]):
+            other = ops[(ops.index(op) + 1 + n % 8) % len(ops)]
+            src_args = [{"bin": op, "assign": op + "Assign", "other_op": other + ("Assign" if n % 2 else ""), "unknown": ["Clone", "Foo", "Neg"][n % 3]}[a] for a in I["args"]]
+            sl, rr = ("&" if I["bl"] == "r" else ""), ("&" if I["br"] == "r" else "")
+            ik = I["ikind"]
+            if ik == "bin":
+                item = "impl ::core::ops::%s<%sY> for %sX { %s fn f(self, r: %sY) -> X { todo!() } }" % (op, rr, sl, "type Output = X;" if I["output"] else "", rr)
+            elif ik == "assign":
+                item = "impl ::core::ops::%sAssign<%sY> for X { fn f(&mut self, r: %sY) { } }" % (op, rr, rr)
+            elif ik == "inherent":
+                item = "impl X { fn f(&self) {} }"
+            elif ik == "negative":
+                item = "impl !::core::ops::%s<Y> for X {}" % op
+            else:
+                item = "impl ::core::clone::Clone for X { fn clone(&self) -> X { todo!() } }"
+            cases.append((I, ", ".join(src_args) + ("" if I["syntax_ok"] else " +"), item, v))
+    reqs = []
+    for I, a, item, v in cases:
+        reqs.append({"k": "items", "id": 0, "src": item})
+        reqs.append({"k": "expand", "id": 1, "entry": "attr", "attr": a, "item": item})
+    rs = dx.expand(reqs)
+    events, meta = [], []
+    for k, (I, a, item, v) in enumerate(cases):
+        rin, r = rs[2 * k], rs[2 * k + 1]
+        items = r.get("items", [])
+        present = bool(items) and items[0]["kind"] == "impl"
+        events.append({"ev": "ownimpl", "I": I, "item_present": present, "item_equal": bool(present and rin["items"] and items[0]["hash"] == rin["items"][0]["hash"]),
+                       "nimpl": sum(1 for x in items[1:] if x["kind"] == "impl"), "nerr": sum(1 for x in items[1:] if x["kind"] == "compile_error"),
+                       "forms": impl_forms_of(items[1:]), "mech": {"err": v["err"], "n": v["n"]}})
+        meta.append(reqs[2 * k + 1])
     return events, meta
 
 
